@@ -181,6 +181,18 @@ func BlockHashOf(ed *engine.ExecutableData, beaconRoot common.Hash, reqs [][]byt
 	if ed.BlobGasUsed != nil {
 		binary.Write(&buf, binary.BigEndian, *ed.BlobGasUsed)
 	}
+	// the rest of the header as well: a field that the consensus layer drops, defaults or truncates on the way
+	// (state root, receipts root, bloom, gas used, base fee, excess blob gas) changes the hash of a real block too
+	buf.Write(ed.StateRoot[:])
+	buf.Write(ed.ReceiptsRoot[:])
+	buf.Write(ed.LogsBloom)
+	binary.Write(&buf, binary.BigEndian, ed.GasUsed)
+	if ed.BaseFeePerGas != nil {
+		buf.Write([]byte(ed.BaseFeePerGas.String()))
+	}
+	if ed.ExcessBlobGas != nil {
+		binary.Write(&buf, binary.BigEndian, *ed.ExcessBlobGas)
+	}
 	return ethcrypto.Keccak256Hash(buf.Bytes())
 }
 
